@@ -57,3 +57,9 @@ Lemma lossy_example :
   let st := qrun ReturnsFalse 96 lossy_bytes lossy_trace in
   fst (fst st) = [] /\ snd (fst st) = [] /\ delivered st = map N.of_nat (seq 0 96) /\ delivered st <> lossy_bytes.
 Proof. vm_compute. repeat split. discriminate. Qed.
+
+(** the source of queue::put, as read by the translator, waits without a deadline when called with the default
+    timeout (a reverted fix makes this lemma fail); capacity of bitstream_queue_t *)
+From M17 Require ConstsModulator.
+Lemma put_policy_in_source : ConstsModulator.put_default_waits_without_deadline = true /\ ConstsModulator.bitstream_queue_capacity = 96%nat.
+Proof. split; reflexivity. Qed.
